@@ -16,7 +16,7 @@ def run(ctx):
         for pw in pws:
             for op in (drv_usm.OPS if not q else rnd.sample(drv_usm.OPS, 4) + ["set"]):
                 eng = bytes([0x80, 0, 0x1f, 0x88, 4]) + bytes(rnd.randrange(256) for _ in range(rnd.choice([0, 7, 12, 27])))
-                S.append(dict(level="authpriv", hash=h, authpw=b"auth-" + pw[:20], privpw=pw, op=op, pad=rnd.choice([0, 1, 100, 127, 128, 255, 256, 1000]), engine=eng,
+                S.append(dict(level="authpriv", hash=h, privmethod=rnd.choice(["verifstream", "verifblock"]), authpw=b"auth-" + pw[:20], privpw=pw, op=op, pad=rnd.choice([0, 1, 100, 127, 128, 255, 256, 1000]), engine=eng,
                               ctxname=rnd.choice([b"", b"ctx"]), ctxengine=rnd.choice([b"", b"", b"\x80\x00\x00\x01\x02otherengine"]),
                               secret=bytes(rnd.randrange(256) for _ in range(rnd.choice([4, 8, 16, 200]))),
                               boots=rnd.choice([1, 7, 300, 2 ** 31 - 1]), now=rnd.choice([3, 50000, 2 ** 31 - 200])))
@@ -25,7 +25,7 @@ def run(ctx):
         for op in ("get", "set"):
             S.append(dict(level="authpriv", hash=a, authpw=b"authpw-shared", privpw=b"shared-priv-password", op=op, pad=5))
             S.append(dict(level="authpriv", hash=b, authpw=b"authpw-shared", privpw=b"shared-priv-password", op=op, pad=5))
-    ctx.rule = ("authPriv exchanges through a recording keyed stream plug-in (decrypt(encrypt(x)) = x) supplied via the puresnmp_plugins namespace: privacy "
+    ctx.rule = ("authPriv exchanges through two recording plug-ins supplied via the puresnmp_plugins namespace (a keyed stream transform, and a block transform that pads to 8 octets so that decrypt returns trailing padding): privacy "
                 "pass-phrases x MD5/SHA-1 localisation x engine ids x operations x context names / foreign context engine ids x payload sizes x SET secrets; "
                 "the agent derives the privacy key independently; distinct = distinct request datagram")
     U.drive(ctx, S)
